@@ -513,11 +513,12 @@ impl CldbRunEnv {
                     let line_text = self.program_lines[use_line].to_string();
                     if use_col >= line_text.len() {
                         None
-                    } else if end_col >= line_text.len() {
-                        end_col = line_text.len();
-                        Some(line_text[use_col..end_col].to_string())
                     } else {
-                        Some(line_text[use_col..end_col].to_string())
+                        if end_col >= line_text.len() {
+                            end_col = line_text.len();
+                        }
+                        // columns are not byte offsets when the line has tabs or non-ASCII text
+                        line_text.get(use_col..end_col).map(|s| s.to_string())
                     }
                 }
             })
